@@ -587,8 +587,18 @@ func (c *ctx) genOneOf(depth int) *Shape {
 			var dt *Shape
 			if s.Kind == KOneOfStr {
 				dt = &Shape{Kind: KString}
+				switch {
+				case c.cfg.TypedEnum && !c.cfg.Describable && r.Chance(15):
+					// the member declares its discriminator as an enum over a named string type
+					dt = &Shape{Kind: KTypedStrEnum, StrVals: []string{m.KeyS, "other-" + m.KeyS}}
+				case r.Chance(10):
+					dt = &Shape{Kind: KStrEnum, StrVals: []string{m.KeyS}, Display: r.Bool()}
+				}
 			} else {
 				dt = &Shape{Kind: KInt}
+				if r.Chance(10) {
+					dt = &Shape{Kind: KIntEnum, IntVals: []int64{m.KeyI}, Display: r.Bool()}
+				}
 			}
 			obj.Props = append(obj.Props, &Prop{Name: s.Disc, T: dt, Required: r.Bool()})
 		}
